@@ -208,6 +208,29 @@ func c27Scenarios(quick bool) []c27Scenario {
 			},
 		},
 		{
+			// an endpoint that received a datagram is REMOVED; the next datagram of its class has no endpoint
+			// again and is queued for the endpoint created afterwards
+			name: "S6-endpoint-removed-then-recreated",
+			body: func(o *c27Obs) {
+				mk(o, []c27Pkt{
+					{"d1", c27Dtls(1), "first-created"}, {"d2", c27Dtls(2), "first-removed"}, {"d3", c27Dtls(3), "second-created"},
+				})
+				vsched.GoNamed("app", func() {
+					first := o.mux.NewEndpoint(MatchDTLS)
+					o.eps["dtls-first"] = first
+					o.conn.events["first-created"] = true
+					vsched.Wait("app-wait-d1-delivered", func() bool { return first.buffer.Count() > 0 })
+					o.mux.RemoveEndpoint(first)
+					o.conn.events["first-removed"] = true
+					vsched.Wait("app-wait-d2-read", func() bool { return len(o.conn.arrived) >= 2 })
+					o.eps["dtls-second"] = o.mux.NewEndpoint(MatchDTLS)
+					o.conn.events["second-created"] = true
+					o.conn.events["finish"] = true
+				})
+			},
+			expect: map[string][][]byte{"dtls-first": {c27Dtls(1)}, "dtls-second": {c27Dtls(2), c27Dtls(3)}},
+		},
+		{
 			name: "S4-endpoint-then-close",
 			body: func(o *c27Obs) {
 				mk(o, []c27Pkt{{"p1", c27Dtls(1), ""}, {"p2", c27Dtls(2), "dtls-created"}})
